@@ -25,7 +25,7 @@ func init() {
 	c := eng.Register(&eng.Check{
 		ID:          "C20",
 		Title:       "A runner behaves like a plain map of data plus a separate key-value store",
-		Rule:        "operation menu of 38 (SetThis with nil / fresh maps / the same map again, SetThisValue, Resolve of formulas that read and assign locals and fields, that fail in three different ways, and that read keys beginning with underscores, Set, Get); one operation repeated 25 000 (quick) / 120 000 (thorough) times after four prefixes, followed by every read: every history up to depth d is replayed on a fresh real runner in lock-step with a plain-map reference model (no state merging); then breadth-first to depth 5 (quick) / 7 (thorough) with merging on the canonical observed state, where a state reached a second way must answer every probe like the first; after every step all caller-visible maps must equal the model's; distinct = distinct canonical states",
+		Rule:        "operation menu of 52 (SetThis with nil / fresh maps / the same map again, SetThisValue, Resolve of formulas that read and assign locals and fields, that fail in three different ways, that read keys beginning with underscores, that re-bind a local to an equal number written differently and read its digits back, that build a list from the data and share it between locals, Set, Get); one operation repeated 25 000 (quick) / 120 000 (thorough) times after four prefixes, followed by every read: every history up to depth d is replayed on a fresh real runner in lock-step with a plain-map reference model (no state merging); then breadth-first to depth 5 (quick) / 7 (thorough) with merging on the canonical observed state, where a state reached a second way must answer every probe like the first; after every step all caller-visible maps must equal the model's; distinct = distinct canonical states",
 		TrustedBase: []string{"plain-map model of the runner in checks/c20.go"},
 		Assumptions: []string{"merging drops caller maps the runner no longer references; leaks into them are covered by the unmerged exploration"},
 		Run:         runC20,
@@ -60,7 +60,7 @@ func judgeSoak(c SoakCase) *eng.Fail {
 			return f
 		}
 	}
-	for _, op := range []int{9, 10, 14, 15, 16, 20, 21, 23, 25, 28, 32, 35, 11, 13, 10, 14} {
+	for _, op := range []int{9, 10, 14, 15, 16, 20, 21, 23, 25, 28, 32, 35, 37, 51, 11, 13, 10, 14} {
 		if f := w.apply(op); f != nil {
 			f.Msg = fmt.Sprintf("after %v and %d x %s: %s", opNames(c.Prefix), c.N, c20OpNames[c.Op], f.Msg)
 			return f
@@ -83,6 +83,8 @@ var c20OpNames = []string{
 	"SetThisValue(max,6)", "Resolve([this.max, this.x, max(1, 2), Max, True, Len, X])", "Resolve(x ? $a = 5 : null, $a)", "Resolve((x ? null : ($a = 6)), $a)",
 	"Resolve([$a === 9, $a === 2, $a === 1, x === 2, x === 1])", "Resolve($a = ($a ?? 0) + 1, ... 40 times ..., $a)",
 	"Resolve($a = x ? 5 : 6)",
+	"Resolve($a = 1.0, '' + $a)", "Resolve($a = 1, '' + $a)", "Resolve($a = 2.50, toString($a))", "Resolve($a = 2.5, toString($a))",
+	"Resolve($e = [x, 2])", "Resolve($f = $e)", "Resolve([$e, $f])",
 }
 
 var c20Counting = strings.Repeat("$a = ($a ?? 0) + 1, ", 40) + "$a"
@@ -99,7 +101,8 @@ var c20Formulas = map[int]string{9: "x", 10: "$a", 11: "$a = x", 12: "$a = 2", 1
 	22: "$a = 7 / 3", 23: "($a ?? 1) * 3", 24: "$a = 9007199254740993", 25: "($a ?? 0) - 9007199254740992", 26: "$a = ($b = 2)", 27: "$a = 2.75", 28: "len(left('abcdef', $a ?? 1))",
 	29: "regexp('a','(')", 30: c20DeepChain, 31: "x(1)", 32: "__t", 35: "[__t, this.___u, ___u, this.__t]", 36: "$e = []", 37: "[$e, $a]",
 	39: "[this.max, this.x, max(1, 2), Max, True, Len, X]", 40: "x ? $a = 5 : null, $a", 41: "(x ? null : ($a = 6)), $a",
-	42: "[$a === 9, $a === 2, $a === 1, x === 2, x === 1]", 43: c20Counting, 44: "$a = x ? 5 : 6"}
+	42: "[$a === 9, $a === 2, $a === 1, x === 2, x === 1]", 43: c20Counting, 44: "$a = x ? 5 : 6",
+	45: "$a = 1.0, '' + $a", 46: "$a = 1, '' + $a", 47: "$a = 2.50, toString($a)", 48: "$a = 2.5, toString($a)", 49: "$e = [x, 2]", 50: "$f = $e", 51: "[$e, $f]"}
 
 // exact values behind the canonical strings of the model (numbers only)
 var c20Decs = map[string]ref.Dec{}
@@ -250,7 +253,7 @@ func (w *c20World) apply(op int) *eng.Fail {
 		// a data entry spelled like a builtin: `this.max` is that entry, `max(...)` the builtin
 		w.r.SetThisValue("max", 6.0)
 		w.ensure()["max"] = canonImpl(6.0)
-	case op >= 9 && op <= 16, op >= 22 && op <= 28, op == 32, op == 35, op == 36, op == 37, op >= 39 && op <= 44:
+	case op >= 9 && op <= 16, op >= 22 && op <= 28, op == 32, op == 35, op == 36, op == 37, op >= 39 && op <= 51:
 		src := c20Formulas[op]
 		p, err := cachedParse(src)
 		if err != nil {
@@ -334,6 +337,24 @@ func (w *c20World) apply(op int) *eng.Fail {
 				k = n.Int64()
 			}
 			want = c20Canon(ref.FromInt64(k))
+		case 45, 46, 47, 48:
+			// a binding keeps the number as it was written (its digits, not only its value): what the
+			// local held before does not matter
+			text := map[int]string{45: "1.0", 46: "1", 47: "2.50", 48: "2.5"}[op]
+			if got, _ := o.val.(string); got != text {
+				return eng.F("C20/resolve", "%s = %s, model says %q (the local was %s before)", name, show(o.val), text, get(m, "$a"))
+			}
+			d, _ := ref.ParseDec(text)
+			w.ensure()["$a"] = c20Canon(d)
+			want = canonImpl(o.val)
+		case 49:
+			want = "[" + get(m, "x") + ",n2]"
+			w.ensure()["$e"] = want
+		case 50:
+			want = get(m, "$e")
+			w.ensure()["$f"] = want
+		case 51:
+			want = "[" + get(m, "$e") + "," + get(m, "$f") + "]"
 		case 36:
 			want = "[]"
 			w.ensure()["$e"] = want
